@@ -139,6 +139,15 @@ func (l *Lexer) readMultiComment() string {
 	defer pool.Put(buf)
 	buf.Reset()
 
+	// Consume the opening "/*", its asterisk must not be taken as the beginning
+	// of the closing "*/" (e.g. "/*/ comment */")
+	if l.char == '/' && l.peekChar() == '*' {
+		buf.WriteRune(l.char)
+		l.readChar()
+		buf.WriteRune(l.char)
+		l.readChar()
+	}
+
 	for l.char != 0x00 {
 		if l.char == '*' && l.peekChar() == '/' {
 			buf.WriteRune(l.char)
